@@ -129,10 +129,40 @@ def measureOf (toks : List String) : String :=
     | _ => "bad-request"
   | _ => "bad-request"
 
+/-- `net <directed> <N> <A> <w> <D>`: the single-network methods of `Network` the whole-network
+limits refer to (`n_links`, `link_density`, `nsi_degree`, `nsi_local_clustering`,
+`nsi_global_clustering`, `nsi_transitivity`, `nsi_closeness`, `nsi_average_path_length`) -/
+def netAnswer (dir n a w d : String) : String :=
+  let directed := dir != "0"
+  let N := n.toNat!
+  let A : Adj := matFn (boolMat a) false
+  let W := vecFn (rats w)
+  let D : Dist := matFn (optRatMat d) none
+  let R := List.range N
+  let ni := "raise:NotImplementedError"
+  join [
+    "n_links=" ++ toString (netNLinks directed N A),
+    "link_density=" ++ showOpt "raise:ZeroDivisionError" (netLinkDensity N A),
+    "nsi_degree=" ++ showRats (R.map (Pyunicorn.Net.nsiDegree directed N A W)),
+    "nsi_local_clustering=" ++
+      (if directed then ni else showRats (R.map (Pyunicorn.Net.nsiLocalClustering N A W))),
+    "nsi_global_clustering=" ++
+      (if directed then ni else showOpt "nan" (netNsiGlobalClustering N A W)),
+    "nsi_transitivity=" ++ (if directed then ni else showOpt "nan" (netNsiTransitivity N A W)),
+    "nsi_closeness=" ++ showOptRats (R.map (netNsiCloseness N D W)) "inf",
+    "nsi_average_path_length=" ++ showOpt "nan" (netNsiAPL N D W)] "|"
+
+/-- `normprod <m> <k,k,…>`: `k·(k−1)` evaluated in the signed integer type of range `[-m, m)` -/
+def normProdAnswer (m ks : String) : String :=
+  let mi : Int := m.toInt!
+  join ((splitTok ks ",").map fun t => toString (normProdW mi t.toInt!))
+
 /-- `all …` answers every measure at once: `name=value|name=value|…` -/
 def answer (toks : List String) : String :=
   match toks with
   | "all" :: args => join (allNames.map fun nm => nm ++ "=" ++ measureOf (nm :: args)) "|"
+  | ["net", dir, n, a, w, d] => netAnswer dir n a w d
+  | ["normprod", m, ks] => normProdAnswer m ks
   | _ => measureOf toks
 
 def main : IO Unit := runDriver answer
